@@ -312,6 +312,32 @@ let () =
         print_string ("R " ^ print_coh (Cd.merge_coherence_ratios fo lists) ^ "\n"); flush stdout
       | ["FALT"; c] ->
         print_string ("R " ^ print_coh (Cd.filter_alt fo (parse_coh c)) ^ "\n"); flush stdout
+      | ["U8"; mode; h] | ["SB"; _; mode; h] as cmd ->
+        let input = bytes_of_ocaml (string_of_hex h) in
+        let trap, only_test, chunk = match mode with
+          | "STRICT" -> Decode.Strict, false, false
+          | "TEST" -> Decode.Strict, true, false
+          | "CHUNK" -> Decode.Strict, false, true
+          | "IGNORE" -> Decode.Ignore, false, false
+          | "REPLACE" -> Decode.Replace [], false, false
+          | _ -> failwith "bad mode" in
+        let show_err (e : Decode.codec_error) =
+          let c = match e.Decode.err_cause with Decode.Invalid -> "invalid" | Decode.Incomplete -> "incomplete" | Decode.OtherCause _ -> "other" in
+          Printf.printf "R ERR %s %d\n" c (int_of_z e.Decode.upto) in
+        (match cmd with
+         | "U8" :: _ ->
+           (match Decode.helper Decode.utf8_decoder (SL.map n_of_int [239; 191; 189]) input trap only_test chunk true with
+            | Decode.HOk out -> Printf.printf "R OK %s\n" (hex_of_string (ocaml_of_bytes out))
+            | Decode.HErr e -> show_err e
+            | Decode.HFuel -> print_string "R FUEL\n")
+         | "SB" :: tbl :: _ ->
+           let table = SL.map (fun x -> n_of_int (int_of_string x)) (SS.split_on_char ',' tbl) in
+           (match Decode.helper (Decode.sb_decoder table) [n_of_int 65533] input trap only_test chunk false with
+            | Decode.HOk out -> Printf.printf "R OK %s\n" (hex_of_string (utf8_of_text out))
+            | Decode.HErr e -> show_err e
+            | Decode.HFuel -> print_string "R FUEL\n")
+         | _ -> ());
+        flush stdout
       | ["QUIT"] -> exit 0
       | _ -> failwith ("unknown command " ^ l)
     done
